@@ -1,375 +1,16 @@
 /-
-C18 — IFT glyph-keyed patch application.
+C18 — IFT glyph-keyed patch application, font level.
 
 Transcribes incremental-font-transfer/src/glyph_keyed.rs
-  `apply_glyph_keyed_patches`, `table_tag_list`, `dedup_gid_replacement_data`,
-  `retained_glyphs_in_font`, `retained_glyphs_total_size`, `OffsetArrayBuilder::build`,
-  `patch_offset_array`, `OffsetType` (+ the six `OffsetTypeInfo`s), `GlyfAndLoca`,
-  the applied-bit loop; font_patch.rs `FontRef::apply_glyph_keyed_patches`;
-read-fonts `GlyphKeyedPatch::read`, `GlyphPatches::read`, `GlyphPatches::glyph_data_for_table`
-  (`GlyphDataIterator`), `Loca::{read, get_raw, all_offsets_are_ascending}`.
-
-Abstractions (stated, exercised by the correspondence harness):
-  * `IntSet::iter_ranges` / `iter_excluded_ranges` + the peeking merge loop in `build` are modelled
-    by `groupRuns`: the maximal runs of equal membership over gids `0..=max` (what the merge visits,
-    in order, once `gids.last() ≤ max` has been checked).
-  * `klippa::Serializer` is used by `build` only as a bounded append buffer (`embed`,
-    `embed_bytes`, `pad`): modelled as list append with the capacity check.
-  * `head`/`maxp` are assumed well formed when present (only the fields used are read).
-NOT modelled: the `Gvar` and `CFFAndCharStrings` implementations of `GlyphDataOffsetArray`
-  (`add_to_font` re-assembly): a patch naming gvar / CFF / CFF2 yields `PErr.unmodelled`.
-  The generic builder below is parameterised by the offset type, so the CFF offset types are covered
-  by the theorems about `buildOffsets`, but only glyf/loca is wired to a font.
+  `apply_glyph_keyed_patches` (decode loop, parse loop, the per-tag loop with its four arms
+  glyf / gvar / CFF / CFF2 and `processed_tables`, the applied-bit loop, `copy_unprocessed_tables`),
+  `table_tag_list`; font_patch.rs `FontRef::apply_glyph_keyed_patches`.
+The arms: `GlyfAndLoca` (Model/GlyphSplice.lean), `Gvar` (Model/GvarKeyed.lean),
+`CFFAndCharStrings` (Model/CffKeyed.lean); all share `patchOffsetArray` (Model/GlyphSplice.lean).
 -/
-import FontVerif.Model.TableKeyed
+import FontVerif.Model.GvarKeyed
+import FontVerif.Model.CffKeyed
 namespace FontVerif.Ift
-
-/-! ## patch containers -/
-
-/-- `GlyphKeyedPatch::read`: `format: Tag, reserved: u32, flags: u8, compat: [u8;16],
-max_uncompressed_length: u32, brotli_stream: [u8]` -/
-structure GKHeader where
-  format : Tag
-  wide : Bool
-  compat : Bytes
-  maxLen : Nat
-  stream : Bytes
-  deriving Repr
-
-def gkRead (p : Bytes) : Except RErr GKHeader :=
-  if p.length < 29 then .error .outOfBounds
-  else .ok { format := beValue (sliceLen p 0 4), wide := (p.drop 8).headD 0 % 2 == 1,
-             compat := sliceLen p 9 16, maxLen := beValue (sliceLen p 25 4), stream := p.drop 29 }
-
-/-- `GlyphPatches` (decoded payload), structurally read -/
-structure GlyphPatches where
-  glyphCount : Nat
-  tables : List Tag
-  gids : List Nat
-  offsets : List Nat
-  raw : Bytes
-  deriving Repr
-
-/-- split `b` into `count` big-endian numbers of `w` bytes (caller checked the length) -/
-def beArray (w : Nat) : Nat → Bytes → List Nat
-  | 0, _ => []
-  | n + 1, b => beValue (b.take w) :: beArray w n (b.drop w)
-
-/-- `GlyphPatches::read(data, flags)`: `glyph_count: u32, table_count: u8,
-glyph_ids: [u16|u24; glyph_count], tables: [Tag; table_count],
-glyph_data_offsets: [Offset32; glyph_count * table_count + 1]`; `cursor.finish` bounds check. -/
-def gpRead (raw : Bytes) (wide : Bool) : Except RErr GlyphPatches :=
-  match beAt 4 raw 0, beAt 1 raw 4 with
-  | some gc, some tc =>
-    let w := if wide then 3 else 2
-    let idsLen := gc * w
-    let tablesLen := tc * 4
-    let offLen := (gc * tc + 1) * 4
-    if 5 + idsLen + tablesLen + offLen ≤ raw.length then
-      .ok { glyphCount := gc
-            gids := beArray w gc (raw.drop 5)
-            tables := beArray 4 tc (raw.drop (5 + idsLen))
-            offsets := beArray 4 (gc * tc + 1) (raw.drop (5 + idsLen + tablesLen))
-            raw := raw }
-    else .error .outOfBounds
-  | _, _ => .error .outOfBounds
-
-/-- `gid <= previous_gid` when there is a previous gid -/
-def notAfter : Option Nat → Nat → Bool
-  | some p, g => g ≤ p
-  | none, _ => false
-
-/-- `GlyphDataIterator::next`, run to the first error: gids strictly ascending, offsets ascending,
-`resolve_offset(start)` (null / out of bounds), `data.get(..len)`. -/
-def glyphData (raw : Bytes) : Option Nat → List (Nat × Nat × Nat) → Except RErr (List (Nat × Bytes))
-  | _, [] => .ok []
-  | prev, (g, s, e) :: rest =>
-    if notAfter prev g then
-      .error (.malformedData "Glyph IDs are unsorted or duplicated.")
-    else if e < s then .error (.malformedData "glyph data offsets are not ascending.")
-    else if s = 0 then .error .nullOffset
-    else if raw.length < s then .error .outOfBounds
-    else if raw.length - s < e - s then .error .outOfBounds
-    else
-      match glyphData raw (some g) rest with
-      | .error x => .error x
-      | .ok r => .ok ((g, sliceLen raw s (e - s)) :: r)
-
-/-- `GlyphPatches::glyph_data_for_table(table_index)`: zip of the gids with consecutive offset
-pairs starting at `table_index * glyph_count`. -/
-def glyphDataForTable (gp : GlyphPatches) (ti : Nat) : Except RErr (List (Nat × Bytes)) :=
-  let offs := gp.offsets.drop (ti * gp.glyphCount)
-  glyphData gp.raw none (List.zip gp.gids (List.zip offs (offs.drop 1)))
-
-/-! ## dedup_gid_replacement_data -/
-
-/-- `data_for_gid.entry(gid).or_insert(data); gids.insert(gid)` on a gid-sorted association list:
-the first data seen for a gid stays. -/
-def insertFirst (g : Nat) (d : Bytes) : List (Nat × Bytes) → List (Nat × Bytes)
-  | [] => [(g, d)]
-  | (g', d') :: rest =>
-    if g < g' then (g, d) :: (g', d') :: rest
-    else if g = g' then (g', d') :: rest
-    else (g', d') :: insertFirst g d rest
-
-def indexOfTag (t : Tag) : List Tag → Nat → Option Nat
-  | [], _ => none
-  | x :: xs, i => if x = t then some i else indexOfTag t xs (i + 1)
-
-/-- `dedup_gid_replacement_data(glyph_patches, table_tag)`: patches in application order, first
-patch wins for a shared gid; result sorted by gid (`IntSet` iteration order). -/
-def dedupFrom (tag : Tag) : List GlyphPatches → List (Nat × Bytes) → Except RErr (List (Nat × Bytes))
-  | [], acc => .ok acc
-  | gp :: rest, acc =>
-    match indexOfTag tag gp.tables 0 with
-    | none => dedupFrom tag rest acc
-    | some ti =>
-      match glyphDataForTable gp ti with
-      | .error e => .error e
-      | .ok items => dedupFrom tag rest (items.foldl (fun a gd => insertFirst gd.1 gd.2 a) acc)
-
-def dedup (tag : Tag) (gps : List GlyphPatches) : Except RErr (List (Nat × Bytes)) :=
-  dedupFrom tag gps []
-
-/-! ## offset types -/
-
-inductive OffsetType where
-  | cffOne | cffTwo | cffThree | cffFour | shortDivByTwo | long
-  deriving Repr, DecidableEq
-
-def OffsetType.width : OffsetType → Nat
-  | .cffOne => 1 | .cffTwo => 2 | .cffThree => 3 | .cffFour => 4 | .shortDivByTwo => 2 | .long => 4
-def OffsetType.divisor : OffsetType → Nat
-  | .shortDivByTwo => 2 | _ => 1
-def OffsetType.bias : OffsetType → Nat
-  | .cffOne => 1 | .cffTwo => 1 | .cffThree => 1 | .cffFour => 1 | _ => 0
-
-/-- `OffsetType::max_representable_size` -/
-def OffsetType.maxRepresentable : OffsetType → Nat
-  | .shortDivByTwo => (2 ^ 16 - 1) * 2
-  | t => 2 ^ (t.width * 8) - 1 - t.bias
-
-/-- what the builder needs from `trait GlyphDataOffsetArray` -/
-structure OffsetArray where
-  offsetType : OffsetType
-  /-- `available_offset_types()` in ascending order -/
-  available : List OffsetType
-  /-- `offset_for(gid)` for gid = 0, 1, …  (already ×2 for short loca) -/
-  offsets : List Nat
-  /-- the bytes `get(range)` slices -/
-  data : Bytes
-  /-- error of `offset_for` for a missing entry -/
-  missing : PErr
-  /-- error of `get` for an out-of-bounds range -/
-  getErr : PErr
-
-def OffsetArray.offsetFor (a : OffsetArray) (g : Nat) : Except PErr Nat :=
-  match a.offsets[g]? with
-  | some o => .ok o
-  | none => .error a.missing
-
-/-- `all_offsets_are_ascending` -/
-def ascending : List Nat → Bool
-  | a :: b :: rest => a ≤ b && ascending (b :: rest)
-  | _ => true
-
-/-! ## runs of replaced / retained gids -/
-
-/-- maximal runs `(replace?, start, count)` of equal flags, first gid `s` -/
-def groupRuns : Nat → List Bool → List (Bool × Nat × Nat)
-  | _, [] => []
-  | s, b :: bs =>
-    match groupRuns (s + 1) bs with
-    | (b', s', c) :: rest => if b = b' then (b, s, c + 1) :: rest else (b, s, 1) :: (b', s', c) :: rest
-    | [] => [(b, s, 1)]
-
-def isReplaced (repl : List (Nat × Bytes)) (g : Nat) : Bool := repl.any (fun gd => gd.1 == g)
-
-/-- the merged sequence of `gids.iter_ranges()` (replace) and `retained_glyphs_in_font` (keep),
-restricted to gids `0..=max` -/
-def runsFor (repl : List (Nat × Bytes)) (maxGid : Nat) : List (Bool × Nat × Nat) :=
-  groupRuns 0 ((List.range (maxGid + 1)).map (isReplaced repl))
-
-/-- `retained_glyphs_total_size`: over the keep ranges, `offset_for(end+1) - offset_for(start)`. -/
-def retainedSize (a : OffsetArray) : List (Bool × Nat × Nat) → Except PErr Nat
-  | [] => .ok 0
-  | (true, _, _) :: rest => retainedSize a rest
-  | (false, s, c) :: rest =>
-    match a.offsetFor s with
-    | .error e => .error e
-    | .ok so =>
-      match a.offsetFor (s + c) with
-      | .error e => .error e
-      | .ok eo =>
-        if eo < so then
-          .error (.fontParsingFailed (.malformedData "offset entries are not in ascending order"))
-        else
-          match retainedSize a rest with
-          | .error e => .error e
-          | .ok t => .ok (eo - so + t)
-
-/-! ## OffsetArrayBuilder::build -/
-
-def SER_OTHER : Nat := 1
-def SER_OFFSET_OVERFLOW : Nat := 2
-def SER_OUT_OF_ROOM : Nat := 4
-
-/-- the two serializers (`new_data`, `new_offsets`) and the `write_index`, replacement iterator -/
-structure BuildState where
-  data : Bytes
-  offs : Bytes
-  writeIndex : Nat
-  repl : List (Nat × Bytes)
-
-/-- `Serializer::allocate_size` on a fresh serializer of capacity `cap` -/
-def embedBytes (cap : Nat) (buf : Bytes) (d : Bytes) : Except PErr Bytes :=
-  if cap - buf.length < d.length then .error (.serializationError SER_OUT_OF_ROOM)
-  else .ok (buf ++ d)
-
-/-- `((index / divisor) + bias).try_into::<OffsetType>()` then `new_offsets.embed(..)` -/
-def embedOffset (t : OffsetType) (cap : Nat) (buf : Bytes) (index : Nat) : Except PErr Bytes :=
-  let v := index / t.divisor + t.bias
-  if 2 ^ (t.width * 8) ≤ v then .error .internalError
-  else embedBytes cap buf (beBytes t.width v)
-
-/-- replace branch: one gid of `for _ in start..=end` -/
-def replaceOne (t : OffsetType) (dataCap offCap : Nat) (st : BuildState) : Except PErr BuildState :=
-  match st.repl with
-  | [] => .error .internalError
-  | (_, d) :: more =>
-    match embedBytes dataCap st.data d with
-    | .error e => .error e
-    | .ok data1 =>
-      match embedOffset t offCap st.offs st.writeIndex with
-      | .error e => .error e
-      | .ok offs1 =>
-        let w1 := st.writeIndex + d.length
-        if t.divisor > 1 then
-          let padding := d.length % t.divisor
-          match embedBytes dataCap data1 (List.replicate padding 0) with
-          | .error e => .error e
-          | .ok data2 => .ok { data := data2, offs := offs1, writeIndex := w1 + padding, repl := more }
-        else .ok { data := data1, offs := offs1, writeIndex := w1, repl := more }
-
-def replaceRun (t : OffsetType) (dataCap offCap : Nat) : Nat → BuildState → Except PErr BuildState
-  | 0, st => .ok st
-  | n + 1, st =>
-    match replaceOne t dataCap offCap st with
-    | .error e => .error e
-    | .ok st' => replaceRun t dataCap offCap n st'
-
-/-- keep branch, the `for gid in start..=end` offset loop: `cur_off - start_off + write_index` -/
-def keepOffsets (a : OffsetArray) (t : OffsetType) (offCap : Nat) (startOff w : Nat) :
-    Nat → Nat → Bytes → Except PErr Bytes
-  | _, 0, buf => .ok buf
-  | g, n + 1, buf =>
-    match a.offsetFor g with
-    | .error e => .error e
-    | .ok cur =>
-      match embedOffset t offCap buf (cur - startOff + w) with
-      | .error e => .error e
-      | .ok buf' => keepOffsets a t offCap startOff w (g + 1) n buf'
-
-/-- keep branch for the range `s ..= s+c-1` -/
-def keepRun (a : OffsetArray) (t : OffsetType) (dataCap offCap : Nat) (s c : Nat) (st : BuildState) :
-    Except PErr BuildState :=
-  match a.offsetFor s with
-  | .error e => .error e
-  | .ok startOff =>
-    match a.offsetFor (s + c) with
-    | .error e => .error e
-    | .ok endOff =>
-      if endOff < startOff then .error .internalError
-      else if a.data.length < endOff then .error a.getErr     -- self.offset_array.get(start..end)?
-      else
-        match embedBytes dataCap st.data (sliceLen a.data startOff (endOff - startOff)) with
-        | .error e => .error e
-        | .ok data1 =>
-          match keepOffsets a t offCap startOff st.writeIndex s c st.offs with
-          | .error e => .error e
-          | .ok offs1 =>
-            .ok { st with data := data1, offs := offs1, writeIndex := st.writeIndex + (endOff - startOff) }
-
-def buildRuns (a : OffsetArray) (t : OffsetType) (dataCap offCap : Nat) :
-    List (Bool × Nat × Nat) → BuildState → Except PErr BuildState
-  | [], st => .ok st
-  | (true, _, c) :: rest, st =>
-    match replaceRun t dataCap offCap c st with
-    | .error e => .error e
-    | .ok st' => buildRuns a t dataCap offCap rest st'
-  | (false, s, c) :: rest, st =>
-    match keepRun a t dataCap offCap s c st with
-    | .error e => .error e
-    | .ok st' => buildRuns a t dataCap offCap rest st'
-
-/-- `OffsetArrayBuilder::build::<Info, OffsetType>()`; returns `(data, offset_array)` -/
-def buildOffsets (a : OffsetArray) (t : OffsetType) (repl : List (Nat × Bytes)) (maxGid : Nat)
-    (dataCap offCap : Nat) : Except PErr (Bytes × Bytes) :=
-  if !ascending a.offsets then
-    .error (.fontParsingFailed (.malformedData "offset array contains unordered offsets."))
-  else
-    match buildRuns a t dataCap offCap (runsFor repl maxGid)
-        { data := [], offs := [], writeIndex := 0, repl := repl } with
-    | .error e => .error e
-    | .ok st =>
-      match embedOffset t offCap st.offs st.writeIndex with   -- "Write the last offset"
-      | .error e => .error e
-      | .ok offs => .ok (st.data, offs)
-
-/-! ## patch_offset_array (steps 0–2) -/
-
-def paddedLen (t : OffsetType) (d : Bytes) : Nat := d.length + d.length % t.divisor
-
-/-- `total_data_size` (step 1) -/
-def totalDataSize (a : OffsetArray) (repl : List (Nat × Bytes)) (maxGid : Nat) : Except PErr Nat :=
-  match retainedSize a (runsFor repl maxGid) with
-  | .error e => .error e
-  | .ok r => .ok (repl.foldl (fun s gd => s + paddedLen a.offsetType gd.2) r)
-
-/-- "Check to see if the offset size needs to be upgraded" -/
-def chooseOffsetType (a : OffsetArray) (total : Nat) : Except PErr OffsetType :=
-  if total > a.offsetType.maxRepresentable then
-    match a.available.find? (fun c => c.maxRepresentable ≥ total) with
-    | some c => .ok c
-    | none => .error (.serializationError SER_OFFSET_OVERFLOW)
-  else .ok a.offsetType
-
-/-- steps 0–2 of `patch_offset_array`: returns the chosen offset type and `(data, offset_array)`;
-`repl` is the result of `dedup`. -/
-def patchOffsetArray (a : OffsetArray) (repl : List (Nat × Bytes)) (maxGid : Nat) :
-    Except PErr (OffsetType × Bytes × Bytes) :=
-  match totalDataSize a repl maxGid with
-  | .error e => .error e
-  | .ok total =>
-    match chooseOffsetType a total with
-    | .error e => .error e
-    | .ok t =>
-      if (match repl.getLast? with | some gd => gd.1 | none => 0) > maxGid then
-        .error (.invalidPatch "Patch would add a glyph beyond this fonts maximum.")
-      else
-        match buildOffsets a t repl maxGid total ((maxGid + 2) * t.width) with
-        | .error e => .error e
-        | .ok (data, offs) => .ok (t, data, offs)
-
-/-! ## glyf + loca -/
-
-/-- `font.table_data(glyf)`, `font.loca(None)` (needs `head.index_to_loc_format`, `loca` length a
-multiple of the entry width) → `GlyfAndLoca` -/
-def glyfAndLoca (font : Font) : Option OffsetArray :=
-  match font.get TAG_glyf, font.get TAG_head, font.get TAG_loca with
-  | some glyf, some head, some loca =>
-    let isLong := beValue (sliceLen head 50 2) == 1
-    let w := if isLong then 4 else 2
-    if loca.length % w ≠ 0 then none
-    else
-      let raw := beArray w (loca.length / w) loca
-      let t := if isLong then OffsetType.long else OffsetType.shortDivByTwo
-      some { offsetType := t, available := [t]
-             offsets := if isLong then raw else raw.map (· * 2)
-             data := glyf
-             missing := .invalidPatch "Start loca entry is missing."
-             getErr := .fontParsingFailed .outOfBounds }
-  | _, _, _ => none
 
 /-- `table_tag_list`: each patch's tags strictly ascending; union as a sorted set -/
 def strictlyAscending : List Nat → Bool
@@ -385,30 +26,62 @@ def tableTagList (gps : List GlyphPatches) : Except PErr (List Tag) :=
     .error (.invalidPatch "Duplicate or unsorted table tag.")
   else .ok ((gps.flatMap (·.tables)).foldl (fun s t => insertSorted t s) [])
 
+/-! ## the per-tag loop
+
+The Rust loop body is an `if / else if` chain on the tag with one arm per supported table; every arm
+(1) builds its view of the BASE font (never of the builder), (2) runs `patch_offset_array`, whose
+`add_to_font` adds one or two tables to the builder, (3) inserts the tags of those tables into
+`processed_tables`; any other tag is skipped (`continue`).  The model splits this into `armOf`
+(which arm, and the tables it adds or its error) and the loop `patchTables`. -/
+
+/-- the `Glyf::TAG` arm: `(font.table_data(glyf), font.loca(None))` must both exist;
+`GlyfAndLoca::add_to_font` refuses a changed offset type and adds glyf, then loca. -/
+def glyfArm (font : Font) (gps : List GlyphPatches) (maxGid : Nat) : Except PErr (List (Tag × Bytes)) :=
+  match glyfAndLoca font with
+  | none => .error (.invalidPatch "Trying to patch glyf/loca but base font doesn't have them.")
+  | some a =>
+    match dedup TAG_glyf gps with
+    | .error e => .error (.patchParsingFailed e)
+    | .ok repl =>
+      match patchOffsetArray a repl maxGid with
+      | .error e => .error e
+      | .ok (t, data, offs) =>
+        -- GlyfAndLoca::add_to_font
+        if t ≠ a.offsetType then .error (.serializationError SER_OFFSET_OVERFLOW)
+        else .ok [(TAG_glyf, data), (TAG_loca, offs)]
+
+/-- one table out of a single-table arm -/
+def oneTable (tag : Tag) (r : Except PErr Bytes) : Except PErr (List (Tag × Bytes)) :=
+  match r with
+  | .error e => .error e
+  | .ok b => .ok [(tag, b)]
+
+/-- which arm a tag of `table_tag_list` selects (`none`: "All other table tags are ignored"), and
+what that arm adds to the font builder.  The CFF / CFF2 arms read the charstrings offset from the
+font's `IFT ` table (never `IFTX`). -/
+def armOf (font : Font) (gps : List GlyphPatches) (maxGid : Nat) (tag : Tag) :
+    Option (Except PErr (List (Tag × Bytes))) :=
+  if tag = TAG_glyf then some (glyfArm font gps maxGid)
+  else if tag = TAG_gvar then some (oneTable TAG_gvar (gvarPatch (font.get TAG_gvar) gps maxGid))
+  else if tag = TAG_CFF then
+    some (oneTable TAG_CFF (cffPatch false (font.get TAG_IFT) (font.get TAG_CFF) gps maxGid))
+  else if tag = TAG_CFF2 then
+    some (oneTable TAG_CFF2 (cffPatch true (font.get TAG_IFT) (font.get TAG_CFF2) gps maxGid))
+  else none
+
+/-- `font_builder.add_raw(tag, data); processed_tables.insert(tag)` for every table of an arm -/
+def addOuts (outs : List (Tag × Bytes)) (st : List Tag × Font) : List Tag × Font :=
+  outs.foldl (fun st td => (td.1 :: st.1, insertTable td.1 td.2 st.2)) st
+
 /-- the per-tag loop of `apply_glyph_keyed_patches`; state = (processed_tables, font_builder) -/
 def patchTables (font : Font) (gps : List GlyphPatches) (maxGid : Nat) :
     List Tag → List Tag × Font → Except PErr (List Tag × Font)
   | [], st => .ok st
-  | tag :: rest, (processed, builder) =>
-    if tag = TAG_glyf then
-      match glyfAndLoca font with
-      | none => .error (.invalidPatch "Trying to patch glyf/loca but base font doesn't have them.")
-      | some a =>
-        match dedup TAG_glyf gps with
-        | .error e => .error (.patchParsingFailed e)
-        | .ok repl =>
-          match patchOffsetArray a repl maxGid with
-          | .error e => .error e
-          | .ok (t, data, offs) =>
-            -- GlyfAndLoca::add_to_font
-            if t ≠ a.offsetType then .error (.serializationError SER_OFFSET_OVERFLOW)
-            else
-              patchTables font gps maxGid rest
-                (TAG_loca :: TAG_glyf :: processed,
-                 insertTable TAG_loca offs (insertTable TAG_glyf data builder))
-    else if tag = TAG_gvar ∨ tag = TAG_CFF ∨ tag = TAG_CFF2 then
-      .error (.unmodelled "gvar/CFF/CFF2 re-assembly")
-    else patchTables font gps maxGid rest (processed, builder)
+  | tag :: rest, st =>
+    match armOf font gps maxGid tag with
+    | none => patchTables font gps maxGid rest st
+    | some (.error e) => .error e
+    | some (.ok outs) => patchTables font gps maxGid rest (addOuts outs st)
 
 /-- `*byte |= 1 << bit_index` at `application_flag_bit_index` -/
 def setAppliedBit (data : Bytes) (bit : Nat) : Option Bytes :=
